@@ -299,6 +299,13 @@ def make_learner(spec):
         return adaptive.SequenceLearner(None, [0.5 * i - 1 for i in range(spec["total"])])
     if k == "AverageLearner":
         return adaptive.AverageLearner(None, atol=1e-9, rtol=None)
+    if k == "IntegratorLearner":
+        # goals stay below the 17 points of the first interval: no refinement (keeps clear of DESIGN F1)
+        return adaptive.IntegratorLearner(real_function, bounds=(-1.0, 2.0), tol=1e-12)
+    if k.startswith("BalancingLearner"):
+        return adaptive.BalancingLearner([adaptive.Learner1D(real_function, bounds=(-1.0, 2.0)),
+                                          adaptive.Learner1D(real_function, bounds=(0.0, 3.0))],
+                                         strategy=k.split(":")[1])
     raise ValueError(k)
 
 
@@ -317,7 +324,15 @@ def npoints_of(l):
 
 # --------------------------------------------------------------------------
 def max_tasks_of(spec):
+    if spec.get("workers") and not spec["ntasks"]:
+        return max(spec["workers"])
     return spec["ntasks"] or spec.get("ncores", 1)
+
+
+def elastic(spec):
+    """ntasks=None and an executor whose reported worker count changes during the run."""
+    w = spec.get("workers")
+    return bool(w) and not spec["ntasks"] and len(set(w)) > 1
 
 
 class Ctx:
@@ -466,6 +481,7 @@ class Ctx:
             "idp": [(int(p), self.P(x)) for p, x in r._id_to_point.items()],
             "log": None if r.log is None else [self.logent(e) for e in r.log],
             "cancelled": sorted(set(self.cancel_calls)),
+            "maxw": (self.spec["ntasks"] or getattr(getattr(self, "executor", None), "_max_workers", None)),
         }
 
     def logent(self, e):
@@ -502,6 +518,10 @@ class Ctx:
     def goal(self, learner):
         self.close("AtGoal")
         self.goal_calls += 1
+        workers = self.spec.get("workers")
+        if workers:
+            # a resized pool: the executor reports a different worker count on this visit
+            self.executor._max_workers = workers[min(self.goal_calls, len(workers) - 1)]
         met = npoints_of(learner) >= self.spec["goal"]
         if not met and self.nothing_left():
             # keep away from the documented oddity (spin / asyncio.wait([]))
@@ -755,7 +775,9 @@ def run_case(spec, sched) -> Rec:
     learner = make_learner(spec)
     ctx.learner = learner
     kind = spec["kind"]
-    ex = FakeExecutor(ctx, spec.get("ncores", 1))
+    workers = spec.get("workers")
+    ex = FakeExecutor(ctx, workers[0] if workers else spec.get("ncores", 1))
+    ctx.executor = ex
     kw = dict(ntasks=spec["ntasks"] or None, log=spec["log"], retries=spec["retries"],
               raise_if_retries_exceeded=spec["raise"], shutdown_executor=spec.get("shutdown_executor", False))
     saved = (R.concurrent, R.asyncio, R._default_executor)
@@ -918,7 +940,7 @@ def spec_summary(spec):
     return {k: spec[k] for k in ("kind", "learner", "total", "goal", "ntasks", "ncores", "retries", "raise", "log")
             if k in spec} | {"faults": sorted(k for k, v in (spec.get("faults") or {}).items() if v),
                              "allow_cancel": spec.get("allow_cancel", False),
-                             "slow_cancel": spec.get("slow_cancel", False)}
+                             "slow_cancel": spec.get("slow_cancel", False), "workers": spec.get("workers")}
 
 
 def replay_doc(rec: Rec):
@@ -935,7 +957,7 @@ def rerun(doc) -> Rec:
 KINDS = ["blocking", "async_coro", "async_exec"]
 
 
-def random_spec(rng, faults=True, cancel=True, learner=None, log=None, big=False):
+def random_spec(rng, faults=True, cancel=True, learner=None, log=None, big=False, elastic_p=0.0):
     kind = rng.choice(KINDS)
     lk = learner or rng.choice(["mock"] * 6 + ["Learner1D", "SequenceLearner", "AverageLearner"])
     ntasks = rng.choice([1, 2, 2, 3, 3, 4, 5] + ([8, 13] if big else []))
@@ -951,6 +973,17 @@ def random_spec(rng, faults=True, cancel=True, learner=None, log=None, big=False
             "shutdown_executor": rng.random() < 0.5, "faults": {}}
     if kind == "async_coro":
         spec["slow_cancel"] = rng.random() < 0.5      # coroutine function with asynchronous clean-up on cancellation
+    if elastic_p and kind != "async_coro" and rng.random() < elastic_p:
+        # ntasks=None with a pool that is resized during the run (grows and shrinks, also below the
+        # number of evaluations in flight)
+        spec["ntasks"] = 0
+        w = rng.choice([1, 2, 3, 4])
+        ws = []
+        for _ in range(rng.randint(3, 12)):
+            w = max(1, min(6, w + rng.choice([-3, -2, -1, -1, 0, 1, 1, 2])))
+            ws += [w] * rng.choice([1, 1, 2])
+        spec["workers"] = ws
+        spec["ncores"] = ws[0]
     if faults and rng.random() < 0.6:
         p = rng.choice([0.08, 0.2, 0.45])
         npts = total if lk in ("mock", "SequenceLearner") else 3 * total
@@ -1076,6 +1109,10 @@ class Collector:
                          f"retries={rec.spec['retries']}, raise={rec.spec['raise']}: {msg}",
                          replay_doc(rec))
         self.n += 1
+        if elastic(rec.spec):
+            # Model/Runner.v has a fixed _get_max_tasks(): runs with a resized pool are decided by the oracle alone
+            st["elastic_pool_runs_oracle_only"] = st.get("elastic_pool_runs_oracle_only", 0) + 1
+            coq = False
         if coq and (self.n % self.coq_every == 0):
             self.cases.append(case_term(rec))
             self.metas.append({"origin": origin, **replay_doc(rec)})
